@@ -215,6 +215,11 @@ extern "C" void c01_run()
     SimTag t(SIM_TAG_INFRA);
     initTaskingSystem(p->init_threads);
   }
+  if (p->lazy_teardown) {
+    // first use creates the scheduler; attribute that allocation to the infrastructure like an explicit initialisation
+    SimTag t(SIM_TAG_INFRA);
+    parallel_for(1, [](int) {});
+  }
   sim_phase(1);
   for (int k = 0; k < p->ncalls; k++) {
     const C01Call &c = p->calls[k];
@@ -244,7 +249,7 @@ extern "C" void c01_run()
     }
   }
   sim_phase(3);
-  if (p->init_threads > 0) {
+  if (p->init_threads > 0 || p->lazy_teardown) {
     SimTag t(SIM_TAG_INFRA);
     initTaskingSystem(1);
   }
